@@ -233,6 +233,10 @@ where
             }
             self.vmp_apply_dft_to_dft(&mut res_dft, &a_dft, &ggsw.data, 0, scratch_1);
         } else {
+            // The first product (di = 0) may write fewer limbs than later ones accumulate into:
+            // clear the accumulator, the caller may hand in uninitialised scratch.
+            res_dft.data_mut().as_mut().fill(0);
+
             // Tmp buffer: vmp result for di > 0 before folding into res_dft.
             // Writing to a fresh sequential buffer avoids scattered-write cache thrashing.
             let (mut res_dft_tmp, scratch_2) = scratch_1.take_vec_znx_dft(self, res_dft.cols(), ggsw.size());
